@@ -90,6 +90,31 @@ def runRenderCase (cfgF pathF lineF srcF envF : String) : String :=
      | none => "unmodelled env")
   | _, _ => "unmodelled parse"
 
+/-- `writes <cfg> <pathhex> <line> <srchex> <envenc>`: the underlying `Write` calls of a fault-free
+    `FRender` (in order, empty calls included) and how the render ends -/
+def runWritesCase (cfgF pathF lineF srcF envF : String) : String :=
+  match parseEngineCfg cfgF, GoVal.parse envF with
+  | some (strict, delims, files), some ev =>
+    (match envOfVal ev with
+     | some env =>
+       let path := hexDecode pathF
+       let cfg : Cfg := { strict := strict, path := path, delims := delims }
+       (match compileSource cfg.delims (hexDecode srcF) lineF.toNat! with
+        | .err e => (RunResult.err e).show path
+        | .panic _ => "panic"
+        | .unmodelled w => "unmodelled " ++ w
+        | .ok root =>
+          let p := frender stdPrims stdOut cfg (fsOfList files) 8 root env
+          let calls := showCalls p.calls
+          (match p.runPure with
+           | (_, .ok _) => "ok " ++ calls
+           | (_, .err (.located e)) => (RunResult.err e).show path ++ " " ++ calls
+           | (_, .err (.plain c)) => (RunResult.err ⟨0, false, c, .byCause⟩).show path ++ " " ++ calls
+           | (_, .panic _) => "panic"
+           | (_, .unmodelled w) => "unmodelled " ++ w))
+     | none => "unmodelled env")
+  | _, _ => "unmodelled parse"
+
 def runCase (line : String) : String :=
   match line.splitOn " " with
   | ["scan", d, ln, src] =>
@@ -100,6 +125,7 @@ def runCase (line : String) : String :=
   | ["eparse", kind, src] =>
     showStmt kind (parseSource (selectorOf kind ++ hexDecode src))
   | ["render", cfgF, pathF, lineF, srcF, envF] => runRenderCase cfgF pathF lineF srcF envF
+  | ["writes", cfgF, pathF, lineF, srcF, envF] => runWritesCase cfgF pathF lineF srcF envF
   | ["val", v] =>
     match GoVal.parse v with
     | some x => x.enc
